@@ -31,15 +31,21 @@ PROJ = ["SIN", "TAN", "ZEA"]
 
 
 def axes(tier, seed):
-    return dict(shapes=SHAPES, projections=PROJ, crpix=["centre", "off-image"], scale_deg=[0.2, 1.0],
+    return dict(shapes=SHAPES if tier == "quick" else SHAPES_T, projections=PROJ if tier == "quick" else PROJ_T, crpix=["centre", "off-image"], scale_deg=[0.2, 1.0],
                 regions=["circle", "polygon", "multilevel"], depth={"1.0": [6, 9], "0.2": [8, 10]}, negate=[False, True],
                 dims=["plane", "file2d", "file3d", "file4d"],
                 table_rows=["inside", "outside", "edge", "undef_ra", "undef_dec"], columns=[("ra", "dec"), ("RAJ2000", "DEJ2000")])
 
 
+SHAPES_T = SHAPES + [(31, 12), (5, 40), (24, 24)]
+PROJ_T = PROJ + ["ARC", "STG"]
+
+
 def cases(tier, seed):
-    for sh, pj, cp, sc, rk in itertools.product(range(len(SHAPES)), PROJ, ["centre", "off"], [0.2, 1.0], ["circle", "polygon", "multilevel"]):
-        for depth in ([6, 9] if sc == 1.0 else [8, 10]):
+    shapes = SHAPES if tier == "quick" else SHAPES_T
+    projs = PROJ if tier == "quick" else PROJ_T
+    for sh, pj, cp, sc, rk in itertools.product(range(len(shapes)), projs, ["centre", "off"], [0.2, 1.0], ["circle", "polygon", "multilevel"]):
+        for depth in (([6, 9] if sc == 1.0 else [8, 10]) if tier == "quick" else ([5, 6, 7, 9] if sc == 1.0 else [7, 8, 10, 11])):
             yield "image", dict(shape=sh, proj=pj, crpix=cp, scale=sc, region=rk, depth=depth)
     for m in range(32):
         yield "table", dict(rows=m)
@@ -78,7 +84,10 @@ def oracle_inside(hdr, shape, reg):
 
     def member(di, dj):
         ra, dec = wz.pix2sky(hdr, jj + 1.0 + dj, ii + 1.0 + di)
-        return np.isin(hpset.pix_of(d, np.radians(ra), np.radians(dec)), model)
+        ok_ = np.isfinite(ra) & np.isfinite(dec)      # pixels without a sky position are never inside
+        out = np.zeros(ra.shape, dtype=bool)
+        out[ok_] = np.isin(hpset.pix_of(d, np.radians(ra[ok_]), np.radians(dec[ok_])), model)
+        return out
     base = member(0, 0)
     amb = np.zeros(shape, dtype=bool)
     for di, dj in [(1e-6, 0), (-1e-6, 0), (0, 1e-6), (0, -1e-6)]:
@@ -87,13 +96,18 @@ def oracle_inside(hdr, shape, reg):
 
 
 def ev_image(case, ctx):
-    shape = SHAPES[case["shape"]]
+    shape = (SHAPES if ctx.tier == "quick" else SHAPES_T)[case["shape"]]
     rows, cols = shape
     sc = case["scale"]
     crpix = None if case["crpix"] == "centre" else (cols + 30.5, -12.25)
     hdr = wz.make_header(case["proj"], (150.0 + core.seed_shift(ctx.seed, 10, 30), -35.0), sc, shape, crpix=crpix)
     fhdr = wz.to_fits_header(hdr)
     wcs = WCS(fhdr, naxis=2)
+    probe = wz.pix2sky(hdr, np.array([cols * 0.35, cols * 0.8, cols * 0.35 + 1]), np.array([rows * 0.6, rows * 0.2, rows * 0.6]))
+    if not np.all(np.isfinite(probe)):
+        # the reference pixels used to place the region have no sky position (image beyond the projection's horizon)
+        ctx.count("skipped_no_sky_position")
+        return
     reg = make_region(case["region"], case["depth"], hdr, shape, ctx.seed)
     inside, amb = oracle_inside(hdr, shape, reg)
     ok = ~amb
